@@ -61,6 +61,10 @@ class Scheduler:
         self.decisions = []         # (enabled names, chosen) for DFS / statistics
         self.tls = threading.local()
         self.max_events = 5000
+        # a blocking call with a timeout may time out whenever the scheduler
+        # says so (the other threads are arbitrarily slow); at most this many
+        # timeouts fire per execution, afterwards such calls simply block
+        self.timeouts_left = 3
 
     # ---- registration -------------------------------------------------
     def register_current(self, name):
@@ -153,6 +157,12 @@ class Scheduler:
         me.state = 'waiting'
         self._pass_baton(me, True)
 
+    def may_time_out(self, timeout):
+        return timeout is not None and self.timeouts_left > 0
+
+    def fire_timeout(self):
+        self.timeouts_left -= 1
+
     def thread_exit(self):
         me = self.me()
         self.events.append({'th': me.name, 'op': 'exit', 'a': -1, 'b': -1})
@@ -194,7 +204,14 @@ def make_shims(sched, tracer):
             if self.local:
                 self.items.append(item)
                 return
-            sched.point('put', lambda: self.maxsize <= 0 or len(self.items) < self.maxsize)
+            full = lambda: self.maxsize > 0 and len(self.items) >= self.maxsize
+            if not block:
+                timeout = 0
+            sched.point('put', lambda: not full() or sched.may_time_out(timeout))
+            if full():
+                sched.fire_timeout()
+                sched.log('put_timeout', self._code(item), len(self.items))
+                raise _real_queue.Full()
             self.items.append(item)
             sched.log('put', self._code(item), len(self.items))
 
@@ -203,7 +220,11 @@ def make_shims(sched, tracer):
                 return self.get_nowait()
             if self.local:
                 return self.items.popleft()
-            sched.point('get', lambda: len(self.items) > 0)
+            sched.point('get', lambda: len(self.items) > 0 or sched.may_time_out(timeout))
+            if not self.items:
+                sched.fire_timeout()
+                sched.log('get_timeout', EMPTY, 0)
+                raise _real_queue.Empty()
             item = self.items.popleft()
             sched.log('get', self._code(item), len(self.items))
             return item
@@ -265,11 +286,75 @@ def make_shims(sched, tracer):
             self.real.start()
 
         def join(self, timeout=None):
-            sched.point('join', lambda: self.vt.state == 'done')
+            sched.point('join', lambda: self.vt.state == 'done' or sched.may_time_out(timeout))
+            if self.vt.state != 'done':
+                sched.fire_timeout()
+                sched.log('join_timeout')
+                return
             sched.log('join')
 
         def is_alive(self):
-            return self.vt is not None and self.vt.state != 'done'
+            sched.point('is_alive')
+            alive = self.vt is not None and self.vt.state != 'done'
+            sched.log('is_alive', -1, 1 if alive else 0)
+            return alive
+
+    class VSemaphore:
+        def __init__(self, value=1):
+            self.value = value
+
+        def acquire(self, blocking=True, timeout=None):
+            if not blocking:
+                timeout = 0
+            sched.point('sem_acquire', lambda: self.value > 0 or sched.may_time_out(timeout))
+            if self.value <= 0:
+                sched.fire_timeout()
+                sched.log('sem_timeout')
+                return False
+            self.value -= 1
+            sched.log('sem_acquire', -1, self.value)
+            return True
+
+        def release(self, n=1):
+            sched.point('sem_release')
+            self.value += n
+            sched.log('sem_release', -1, self.value)
+
+        __enter__ = acquire
+
+        def __exit__(self, *a):
+            self.release()
+
+    class VLock(VSemaphore):
+        def __init__(self):
+            VSemaphore.__init__(self, 1)
+
+        def locked(self):
+            return self.value <= 0
+
+    class VEvent:
+        def __init__(self):
+            self.flag = False
+
+        def set(self):
+            sched.point('ev_set')
+            self.flag = True
+            sched.log('ev_set')
+
+        def clear(self):
+            sched.point('ev_clear')
+            self.flag = False
+
+        def is_set(self):
+            sched.point('ev_is_set')
+            return self.flag
+
+        def wait(self, timeout=None):
+            sched.point('ev_wait', lambda: self.flag or sched.may_time_out(timeout))
+            if not self.flag:
+                sched.fire_timeout()
+                sched.log('ev_timeout')
+            return self.flag
 
     # ---- model of concurrent.futures.ThreadPoolExecutor ----------------
     class VFuture:
@@ -360,8 +445,30 @@ def make_shims(sched, tracer):
         def shutdown(self, wait=True, cancel_futures=False):
             self.__exit__()
 
-    qmod = types.SimpleNamespace(Queue=VQueue, Empty=_real_queue.Empty, Full=_real_queue.Full)
-    tmod = types.SimpleNamespace(Thread=VThread)
+    class VLifoQueue(VQueue):
+        def get(self, block=True, timeout=None):
+            if self.items:
+                self.items.rotate(1)        # the newest item comes out first
+            return VQueue.get(self, block, timeout)
+
+        def get_nowait(self):
+            if self.items:
+                self.items.rotate(1)
+            return VQueue.get_nowait(self)
+
+    class Fallback:
+        """A module namespace: the shims first, then the real module."""
+
+        def __init__(self, real, **shims):
+            self.__dict__['_real'] = real
+            self.__dict__.update(shims)
+
+        def __getattr__(self, name):
+            return getattr(self._real, name)
+
+    qmod = Fallback(_real_queue, Queue=VQueue, SimpleQueue=VQueue, LifoQueue=VLifoQueue)
+    tmod = Fallback(threading, Thread=VThread, Semaphore=VSemaphore, BoundedSemaphore=VSemaphore,
+                    Lock=VLock, RLock=VLock, Event=VEvent)
     import concurrent.futures as cf
     fmod = types.SimpleNamespace(ThreadPoolExecutor=VExecutor,
                                  ProcessPoolExecutor=cf.ProcessPoolExecutor,
